@@ -42,6 +42,8 @@ type Check struct {
 	Race bool
 	// NoRlimit disables the address-space limit in workers.
 	NoRlimit bool
+	// CrashFeatures derives extra features for a process-fatal ending from the write-ahead case description.
+	CrashFeatures func(caseDesc string) map[string]string
 	// Finish lets a check add coordinator-side evidence or verdict logic.
 	Finish func(co *Merged)
 }
@@ -240,6 +242,19 @@ func (c *Ctx) Violate(features map[string]string, witness any, detail string) {
 		c.vios = append(c.vios, v)
 	}
 	c.mu.Unlock()
+}
+
+// Checkpoint makes everything recorded so far durable (used before a case that may kill the process).
+func (c *Ctx) Checkpoint() { c.flush(false) }
+
+// ForceWAL turns the write-ahead case log on for the rest of this worker.
+func (c *Ctx) ForceWAL() {
+	if c.wal == nil && c.Dir != "" {
+		if f, err := os.OpenFile(fmt.Sprintf("%s/w%d.wal", c.Dir, c.Shard), os.O_CREATE|os.O_RDWR|os.O_TRUNC, 0o644); err == nil {
+			c.wal = f
+		}
+	}
+	c.walOn = true
 }
 
 // Begin marks the start of a case; desc identifies/contains the input.
